@@ -264,7 +264,7 @@ def _after_model(ctx, quick, rnd, binary, defect, runs):
             simulate="num=%d" % (ntr if len(filt) < 2 else ntr // 3), depth=dep + 1, seed=ctx.seed * 7 + len(filt), timeout=900)[0], 2, rnd))))
     if not quick:
         jobs.append(("sim-4x4", dict(nids=4, naddrs=4, c0peer="b0"), lambda: _thin(_gen(
-            ctx, "gen_sim44.cfg", _consts(nids=4, naddrs=4, defect=defect, depth=7, sim=True, bad=True, dup=True, maxlen=3, split=True, c0peer="b0"),
+            ctx, "gen_sim44.cfg", _consts(nids=4, naddrs=4, defect=defect, depth=7, sim=True, bad=True, dup=True, maxlen=2, split=True, c0peer="b0"),
             simulate="num=300", depth=8, seed=ctx.seed * 7 + 5, timeout=1200)[0], 2, rnd)))
     with cf.ThreadPoolExecutor(4) as ex:
         results = list(ex.map(lambda j: j[2](), jobs))
